@@ -16,7 +16,7 @@ theorem count_filter_ne (l : List Nat) (k j : Nat) :
       simp only [List.filter_cons, bne_self_eq_false, Bool.false_eq_true, if_false, ih]
       by_cases hj : j = x
       · simp [hj]
-      · simp [hj, List.count_cons, Ne.symm hj]
+      · simp [hj, Ne.symm hj]
     · have : (x != k) = true := by simp [hx]
       simp only [List.filter_cons, this, if_true, List.count_cons, ih]
       by_cases hj : j = k
